@@ -3,8 +3,9 @@
    examples.  Model: Metrics/Metrics.v (one lock acquisition = one atomic step; threads = lists
    of calls; schedule = sequence of granted thread ids; a grant to a finished thread is
    skipped), vocabulary: Metrics/Spec.v. *)
-From Coq Require Import List ZArith NArith Bool.
-From IB Require Import Metrics.Metrics Metrics.Spec Proofs.MetricsProofs Proofs.MetricsMore.
+From Coq Require Import String List ZArith NArith Bool Lia Permutation.
+From IB Require Import Metrics.Metrics Metrics.Spec Metrics.Export Metrics.Histogram Proofs.MetricsProofs
+  Proofs.MetricsMore Proofs.MetricsExport Proofs.MetricsHistogram.
 Import ListNotations.
 
 (* ---------- no lost update ---------- *)
@@ -350,3 +351,334 @@ Theorem c16_reattach_then_run :
     fst (p_take_metrics p') = Some k2.
 Proof. exact reattach_then_run. Qed.
 
+
+(* ================================================================================================
+   The export down to the bytes (model: Metrics/Export.v): the serde_json::Value to_json builds
+   (a BTreeMap), its pretty text, snapshot(), print(), and save_to_file on a file model in which
+   a write that does not truncate leaves the tail of a longer old file behind.  E : env gives the
+   spelling of the names and value()/description() of the non-counter metrics - arbitrary.
+   ================================================================================================ *)
+
+Definition ex_env : env :=
+  Env (fun k => if (k =? -1)%Z then TIME_KEY else txt "c" ++ dec (Z.to_N k))
+      (fun t => JArr [JStr (txt "tag"); JNat (Z.to_N t)])
+      (fun t => if Z.even t then Some (txt "d") else None).
+(* a collector whose counter c0 is v, with metrics c10, c2 (tagged, c2 described) next to it *)
+Definition ex_coll (v : N) : mstate :=
+  run_calls [SetC 0 v; Reg 10 (Other 3); Reg 2 (Other 4)] empty_state.
+
+(* ---------- save_to_file ---------- *)
+(* whatever the path held before - nothing, a shorter file, a LONGER earlier export, somebody
+   else's file - after a successful save_to_file it holds exactly the pretty-printed to_json of
+   the collector, and no other path has changed *)
+Theorem c16_save_writes_export :
+  forall (E : env) (p : path) (s : mstate) (f : fs),
+    ms_poisoned s = false -> creatable p = true ->
+    fst (save_to_file E p s f) = Ok tt /\
+    fs_read p (snd (save_to_file E p s f)) = Some (export_text E s) /\
+    (forall q, q <> p -> fs_read q (snd (save_to_file E p s f)) = fs_read q f).
+Proof. exact save_writes_export. Qed.
+
+Example c16_save_writes_export_ex :
+  let f := [(0%Z, export_text ex_env (ex_coll 1000000)); (1%Z, txt "somebody else's")] in
+  (length (export_text ex_env (ex_coll 7)) < length (export_text ex_env (ex_coll 1000000)))%nat /\
+  fs_read 0%Z (snd (save_to_file ex_env 0%Z (ex_coll 7) f)) = Some (export_text ex_env (ex_coll 7)) /\
+  fs_read 1%Z (snd (save_to_file ex_env 0%Z (ex_coll 7) f)) = Some (txt "somebody else's").
+Proof.
+  intro f. split; [vm_compute; lia|].
+  destruct (c16_save_writes_export ex_env 0%Z (ex_coll 7) f eq_refl eq_refl) as (_ & H1 & H2).
+  split; [exact H1|]. rewrite H2 by discriminate. reflexivity.
+Qed.
+
+(* a save that fails (poisoned collector: panic in to_json; a path that cannot be created: Err)
+   leaves every file as it was *)
+Theorem c16_failed_save_leaves_files :
+  forall (E : env) (p : path) (s : mstate) (f : fs),
+    (ms_poisoned s = true -> save_to_file E p s f = (Panic, f)) /\
+    (ms_poisoned s = false -> creatable p = false -> save_to_file E p s f = (Err 0%Z, f)).
+Proof. exact failed_save_leaves_files. Qed.
+
+Example c16_failed_save_leaves_files_ex :
+  let f := [(0%Z, txt "old")] in
+  save_to_file ex_env (-1)%Z (ex_coll 7) f = (Err 0%Z, f) /\
+  save_to_file ex_env 0%Z (run_calls (repeat (Incr 900 4611686018427387903) 5) empty_state) f = (Panic, f).
+Proof.
+  intro f. split.
+  - apply (c16_failed_save_leaves_files ex_env (-1)%Z (ex_coll 7) f); reflexivity.
+  - apply (c16_failed_save_leaves_files ex_env 0%Z); vm_compute; reflexivity.
+Qed.
+
+(* the file model: writing `data` at offset 0 of a file holding `old` gives exactly `data` iff
+   `old` was not longer; in general the result is as long as the longer of the two and starts
+   with `data` *)
+Theorem c16_write_keeps_longer_tail :
+  forall data old : text,
+    (write_at0 data old = data <-> (length old <= length data)%nat) /\
+    length (write_at0 data old) = Nat.max (length data) (length old) /\
+    firstn (length data) (write_at0 data old) = data.
+Proof. exact write_at0_exact. Qed.
+
+Example c16_write_keeps_longer_tail_ex :
+  write_at0 (txt "{7}") (txt "{1000}") = txt "{7}00}" /\ write_at0 (txt "{1000}") (txt "{7}") = txt "{1000}".
+Proof. split; vm_compute; reflexivity. Qed.
+
+(* ---------- the regression the check guards against ---------- *)
+(* save_to_file through OpenOptions::new().write(true).create(true) - no truncate - instead of
+   File::create: over an existing file the old tail stays behind the new document; the file is
+   the export exactly when the previous content was not longer.  (Shrinking exports: a counter
+   with fewer digits, a faster second run, a smaller collector saving to the same path.) *)
+Theorem c16_save_without_truncate_keeps_tail :
+  forall (E : env) (p : path) (s : mstate) (f : fs) (old : text),
+    ms_poisoned s = false -> creatable p = true -> fs_read p f = Some old ->
+    fs_read p (snd (save_to_file_keep E p s f)) =
+      Some (export_text E s ++ skipn (length (export_text E s)) old) /\
+    (fs_read p (snd (save_to_file_keep E p s f)) = Some (export_text E s) <->
+     (length old <= length (export_text E s))%nat).
+Proof. exact save_keep_stale_tail. Qed.
+
+Example c16_save_without_truncate_ex :
+  let f := snd (save_to_file_keep ex_env 0%Z (ex_coll 1000000) []) in
+  fs_read 0%Z f = Some (export_text ex_env (ex_coll 1000000)) /\
+  fs_read 0%Z (snd (save_to_file_keep ex_env 0%Z (ex_coll 7) f)) =
+    Some (export_text ex_env (ex_coll 7) ++ txt "
+  }
+}") /\
+  fs_read 0%Z (snd (save_to_file_keep ex_env 0%Z (ex_coll 7) f)) <> Some (export_text ex_env (ex_coll 7)) /\
+  fs_read 0%Z (snd (save_to_file ex_env 0%Z (ex_coll 7) f)) = Some (export_text ex_env (ex_coll 7)).
+Proof.
+  intro f.
+  assert (Hr : fs_read 0%Z f = Some (export_text ex_env (ex_coll 1000000))) by (vm_compute; reflexivity).
+  split; [exact Hr|].
+  destruct (c16_save_without_truncate_keeps_tail ex_env 0%Z (ex_coll 7) f _ eq_refl eq_refl Hr) as [H1 H2].
+  split; [rewrite H1; vm_compute; reflexivity|]. split.
+  - intro H. apply H2 in H. vm_compute in H. lia.
+  - apply c16_save_writes_export; reflexivity.
+Qed.
+
+(* ---------- sequences ---------- *)
+(* any script before (other collectors, longer exports to the same path, foreign files), a save
+   to p, any script afterwards that does not touch p: the file holds the export of the collector
+   that saved last, in the state it had at that moment *)
+Theorem c16_last_save_wins :
+  forall (E : env) (before : list xstep) (p : path) (after : list xstep) (w : world),
+    ms_poisoned (cur (xrun E before w)) = false -> creatable p = true ->
+    forallb (fun x => negb (touches p x)) after = true ->
+    fs_read p (w_fs (xrun E (before ++ XSave p :: after) w)) =
+    Some (export_text E (cur (xrun E before w))).
+Proof. exact last_save_wins. Qed.
+
+Example c16_last_save_wins_ex :
+  let before := [XCall (SetC 0 1000000); XCall (RecStart 5); XCall (RecEnd 12000005); XSave 0;
+                 XForeign 0 (txt "something much longer than the export of the second collector .............");
+                 XUse 1; XCall (SetC 0 7)] in
+  let after := [XCall (Incr 0 1); XSave 1; XUse 0; XSave (-1); XRemove 1] in
+  fs_read 0%Z (w_fs (xrun ex_env (before ++ XSave 0 :: after) (fresh_world 2))) =
+  Some (txt "{
+  ""c0"": {
+    ""value"": 7
+  }
+}").
+Proof.
+  intros before after.
+  rewrite (c16_last_save_wins ex_env before 0%Z after (fresh_world 2)) by reflexivity.
+  vm_compute. reflexivity.
+Qed.
+
+(* ---------- the JSON document ---------- *)
+(* the keys of the exported object are strictly increasing in byte order: every name once, in
+   the order of a BTreeMap - the text is determined by the collector's content *)
+Theorem c16_export_keys_sorted :
+  forall (E : env) (s : mstate),
+    keys_sorted (map fst (export_entries E s)) = true /\
+    keys_sorted (map fst (snapshot_entries E s)) = true.
+Proof. intros E s. split; [exact (export_keys_sorted E s)|exact (snapshot_keys_sorted E s)]. Qed.
+
+Example c16_export_keys_sorted_ex :
+  map fst (export_entries ex_env (run_calls [RecStart 1; RecEnd 2] (ex_coll 5))) =
+  [txt "c0"; txt "c10"; txt "c2"; txt "execution_time_ms"].
+Proof. vm_compute. reflexivity. Qed.
+
+(* every stored metric is in the export under its own name, its value() in the "value" field -
+   the very value snapshot() reports - provided distinct stored names are spelled differently;
+   only a metric stored under the reserved name gives way to the execution time *)
+Theorem c16_export_has_every_metric :
+  forall (E : env) (s : mstate) (n : name) (m : metric),
+    NoDup (map (e_name E) (map fst (ms_metrics s))) ->
+    lookup n (ms_metrics s) = Some m ->
+    (elapsed s = None \/ e_name E n <> TIME_KEY) ->
+    bt_lookup (e_name E n) (export_entries E s) = Some (metric_obj E m) /\
+    obj_value (metric_obj E m) = Some (metric_value E m) /\
+    bt_lookup (e_name E n) (snapshot_entries E s) = Some (metric_value E m).
+Proof. exact export_has_every_metric. Qed.
+
+Example c16_export_has_every_metric_ex :
+  let s := run_calls [RecStart 1; RecEnd 2] (ex_coll 5) in
+  bt_lookup (txt "c2") (export_entries ex_env s) =
+    Some (JObj [(KEY_DESC, JStr (txt "d")); (KEY_VALUE, JArr [JStr (txt "tag"); JNat 4])]) /\
+  bt_lookup (txt "c2") (snapshot_entries ex_env s) = Some (JArr [JStr (txt "tag"); JNat 4]).
+Proof.
+  intro s.
+  assert (Hnd : NoDup (map (e_name ex_env) (map fst (ms_metrics s)))).
+  { vm_compute. repeat constructor; cbn [In]; intuition discriminate. }
+  destruct (c16_export_has_every_metric ex_env s 2%Z (Other 4) Hnd eq_refl) as (H1 & _ & H3).
+  - right. vm_compute. discriminate.
+  - split; [exact H1|exact H3].
+Qed.
+
+(* the execution_time_ms entry: the run's duration in whole milliseconds whenever elapsed() is
+   Some - replacing a user metric of that name - and untouched otherwise *)
+Theorem c16_export_time_entry :
+  forall (E : env) (s : mstate),
+    bt_lookup TIME_KEY (export_entries E s) =
+    match elapsed s with
+    | Some d => Some (time_obj (d / 1000000))
+    | None => bt_lookup TIME_KEY (export_base E (ms_metrics s))
+    end.
+Proof. exact export_time_entry. Qed.
+
+Example c16_export_time_entry_ex :
+  let s := run_calls [Reg (-1) (Other 7); RecStart 5; RecEnd 1205000005] empty_state in
+  bt_lookup TIME_KEY (export_entries ex_env s) =
+    Some (JObj [(KEY_DESC, JStr TIME_DESC); (KEY_VALUE, JNat 1205)]) /\
+  bt_lookup TIME_KEY (snapshot_entries ex_env s) = Some (JArr [JStr (txt "tag"); JNat 7]).
+Proof. split; vm_compute; reflexivity. Qed.
+
+(* the twins: snapshot(), print() and to_json() list the same names (to_json adds the execution
+   time when both stamps are there) *)
+Theorem c16_views_same_names :
+  forall (E : env) (s : mstate),
+    map fst (snapshot_entries E s) = map fst (print_entries E s) /\
+    map fst (snapshot_entries E s) = map fst (export_base E (ms_metrics s)) /\
+    (elapsed s = None -> map fst (export_entries E s) = map fst (snapshot_entries E s)) /\
+    (forall d, elapsed s = Some d ->
+       map fst (export_entries E s) = map fst (bt_insert TIME_KEY JNull (snapshot_entries E s))).
+Proof. exact views_same_names. Qed.
+
+Example c16_views_same_names_ex :
+  let s := run_calls [RecStart 1; RecEnd 2000001] (ex_coll 5) in
+  map fst (print_entries ex_env s) = [txt "c0"; txt "c10"; txt "c2"] /\
+  print_text ex_env s = txt "
+========== Pipeline Metrics ==========
+Execution Time: 0.002s (2 ms)
+--------------------------------------
+c0: 5
+c10: [""tag"",3]
+c2: [""tag"",4] (d)
+======================================
+
+".
+Proof. split; vm_compute; reflexivity. Qed.
+
+(* refinement: the names of the byte-level export are exactly the spellings of the keys of the
+   abstract to_json the earlier theorems speak about *)
+Theorem c16_export_names_are_json_keys :
+  forall (E : env) (s : mstate) (k : text),
+    e_name E exec_time_name = TIME_KEY ->
+    (In k (map fst (export_entries E s)) <-> In k (map (e_name E) (json_keys s))).
+Proof. exact export_names_are_json_keys. Qed.
+
+Example c16_export_names_are_json_keys_ex :
+  let s := run_calls [RecStart 1; RecEnd 2] (ex_coll 5) in
+  json_keys s = [0; 10; 2; -1]%Z /\ In (txt "c10") (map fst (export_entries ex_env s)).
+Proof.
+  intro s. split; [vm_compute; reflexivity|].
+  apply (c16_export_names_are_json_keys ex_env s (txt "c10") eq_refl).
+  vm_compute. right. left. reflexivity.
+Qed.
+
+(* no name twice in the exported object, for every environment and state; and when distinct
+   stored names are spelled differently the three views list exactly the stored names, each once
+   (print: one line per stored metric) *)
+Theorem c16_export_one_entry_per_name :
+  forall (E : env) (s : mstate),
+    NoDup (map fst (export_entries E s)) /\
+    (NoDup (map (e_name E) (map fst (ms_metrics s))) ->
+     Permutation (map fst (snapshot_entries E s)) (map (e_name E) (map fst (ms_metrics s))) /\
+     length (print_entries E s) = length (ms_metrics s)).
+Proof. exact export_one_entry_per_name. Qed.
+
+Example c16_export_one_entry_per_name_ex :
+  let s := ex_coll 5 in
+  map fst (ms_metrics s) = [0; 10; 2]%Z /\
+  map fst (snapshot_entries ex_env s) = [txt "c0"; txt "c10"; txt "c2"] /\
+  length (print_entries ex_env s) = 3%nat.
+Proof.
+  intro s. split; [reflexivity|]. split; [vm_compute; reflexivity|].
+  destruct (c16_export_one_entry_per_name ex_env s) as [_ H].
+  destruct H as [_ H]; [|rewrite H; reflexivity].
+  vm_compute. repeat constructor; cbn [In]; intuition discriminate.
+Qed.
+
+(* string escaping (names, descriptions, string values): what is written between the quotes reads
+   back as the original bytes - quotes, backslashes, control characters, UTF-8 included *)
+Theorem c16_quote_roundtrip :
+  forall t : text,
+    Forall is_byte t ->
+    unescape (flat_map escape_byte t) = t /\
+    quote t = (34 :: flat_map escape_byte t ++ [34])%Z.
+Proof. exact quote_roundtrip. Qed.
+
+(* the bytes: a, double quote, backslash, line feed, 0x01, 0x1f, DEL, e-acute in UTF-8 *)
+Example c16_quote_roundtrip_ex :
+  let t := [97; 34; 92; 10; 1; 31; 127; 195; 169]%Z in
+  flat_map escape_byte t =
+    [97; 92; 34; 92; 92; 92; 110; 92; 117; 48; 48; 48; 49; 92; 117; 48; 48; 49; 102; 127; 195; 169]%Z /\
+  unescape (flat_map escape_byte t) = t.
+Proof.
+  intro t. split; [vm_compute; reflexivity|].
+  apply c16_quote_roundtrip. repeat constructor; unfold is_byte; lia.
+Qed.
+
+(* ================================================================================================
+   HistogramMetric (model: Metrics/Histogram.v; samples as integers = multiples of an exact unit,
+   NaN outside the model)
+   ================================================================================================ *)
+
+(* stats() never indexes out of range, whatever the number of samples: count/2, count*95/100 and
+   count*99/100 are all below count *)
+Theorem c16_hist_stats_never_panics :
+  forall values : samples, exists st, stats values = Some st.
+Proof. exact hist_stats_total. Qed.
+
+Example c16_hist_stats_never_panics_ex :
+  stats [] = Some hist_default /\
+  stats [7] = Some (HS 1 7 7 7 7 7 7) /\
+  stats (map (fun i => 6 * Z.of_nat i)%Z (seq 0 100)) = Some (HS 100 29700 0 594 300 570 594).
+Proof. repeat split. Qed.
+
+(* what the statistics of a non-empty histogram are: the number of samples, their sum, and five
+   of the samples themselves - the smallest, the largest (bounds of every sample) and three in
+   between, in order *)
+Theorem c16_hist_stats_spec :
+  forall (values : samples) (st : hstats),
+    values <> [] -> stats values = Some st ->
+    hs_count st = length values /\ hs_sum st = Histogram.zsum values /\
+    In (hs_min st) values /\ In (hs_max st) values /\
+    In (hs_p50 st) values /\ In (hs_p95 st) values /\ In (hs_p99 st) values /\
+    (forall x, In x values -> (hs_min st <= x <= hs_max st)%Z) /\
+    (hs_min st <= hs_p50 st)%Z /\ (hs_p50 st <= hs_p95 st)%Z /\
+    (hs_p95 st <= hs_p99 st)%Z /\ (hs_p99 st <= hs_max st)%Z.
+Proof. exact hist_stats_spec. Qed.
+
+Example c16_hist_stats_spec_ex :
+  stats [12; -4; 0; 30; 6; 6]%Z = Some (HS 6 50 (-4) 30 6 30 30).
+Proof. reflexivity. Qed.
+
+(* the order in which the samples were recorded does not matter *)
+Theorem c16_hist_stats_order_independent :
+  forall a b : samples, Permutation a b -> stats a = stats b.
+Proof. exact hist_stats_perm. Qed.
+
+Example c16_hist_stats_order_independent_ex :
+  stats [12; -4; 0; 30; 6; 6]%Z = stats (rev [12; -4; 0; 30; 6; 6]%Z).
+Proof. apply c16_hist_stats_order_independent. apply Permutation_rev. Qed.
+
+(* the two public ways to fill a histogram agree: new() + record() one by one = with_values() *)
+Theorem c16_hist_record_is_with_values :
+  forall vs : list Z,
+    fold_left (fun h v => hist_record v h) vs hist_new = hist_with_values vs.
+Proof. exact hist_record_is_with_values. Qed.
+
+Example c16_hist_record_is_with_values_ex :
+  stats (fold_left (fun h v => hist_record v h) [3; 1; 2]%Z hist_new) = stats (hist_with_values [3; 1; 2]%Z).
+Proof. rewrite c16_hist_record_is_with_values. reflexivity. Qed.
